@@ -5,6 +5,7 @@ VERUS_UNITS = {
     'sketch': dict(template='contracts/sketch.rs', props=['C14', 'C08', 'C13'], rlimit=30),
     'config': dict(template='contracts/config.rs', props=['C17', 'C05', 'C06', 'C08'], rlimit=30),
     'sync_admit': dict(template='contracts/sync_admit.rs', props=['C12', 'C13', 'C04', 'C08'], rlimit=30),
+    'deque_lift': dict(template='contracts/deque_lift.rs', props=['C08', 'C11', 'C12'], rlimit=30),
     'sync_maint': dict(template='contracts/sync_maint.rs', props=['C03', 'C04', 'C05', 'C08', 'C10', 'C11', 'C12', 'C13'], rlimit=30),
     'sync': dict(template='contracts/sync.rs', props=['C01', 'C03', 'C04', 'C05', 'C06', 'C07', 'C08', 'C10', 'C17'], rlimit=30),
     'udeques': dict(template='contracts/udeques.rs', props=['C01', 'C03', 'C05', 'C07', 'C08', 'C10', 'C11', 'C12', 'C13', 'C17'], rlimit=30),
@@ -24,7 +25,7 @@ KANI_UNITS = {
             dict(name='window_push_back', tags=['C08', 'C11', 'C12'], function='Deque::push_back', what='local-window pointer contract of Deque::push_back (empty / tail is head / long list): complete for one operation'),
             dict(name='window_pop_front', tags=['C08', 'C11'], function='Deque::pop_front', what='local-window pointer contract of Deque::pop_front: the head is handed out as a Box exactly once: complete for one operation'),
             dict(name='seq_3x3', tags=['C08', 'C11', 'C12'], function='Deque', bounded='3 nodes x 3 symbolic operations, unwind 10', what='operation sequences on the real list with a structural walker after every step and Drop at the end', timeout=1500),
-            dict(name='deques_tagged_rc', tags=['C08', 'C11'], function='unsync::Deques', bounded='2 entries, 1 symbolic move, unwind 6', what='tagged-pointer region dispatch never reaches unreachable!/panic!; key clones released exactly when nodes are unlinked (Rc::strong_count)', timeout=1500),
+            dict(name='deques_tagged_rc', tags=['C08', 'C11', 'C07', 'C05'], function='unsync::Deques', bounded='2 entries, 1 symbolic move, unwind 6', what='tagged-pointer region dispatch never reaches unreachable!/panic!; key clones released exactly when nodes are unlinked (Rc::strong_count)', timeout=1500),
             dict(name='weigh_defaults_to_one', tags=['C17'], function='weigh', what='weigh(None, k, v) == 1 for all k, v: complete'),
             dict(name='weigh_calls_the_weigher_once_with_the_pair', tags=['C17', 'C10'], function='weigh', what='weigh(Some(w), k, v) calls the boxed weigher exactly once with (k, v) and returns its result: complete'),
             dict(name='glue_evict_expired', tags=['C10', 'C08', 'C03', 'C04'], function='Cache::evict_expired', what='glue of evict_expired with both loop callees stubbed by recording havoc contracts: counters reduced by exactly what the callees report; scans run iff the policy is configured: complete for the glue'),
@@ -67,7 +68,7 @@ NOT_APPLICABLE = {
     'C16': 'exactly-once iteration is the contract of std HashMap / dashmap iterators (dependencies, assumed not verified) and of schedules; the only repository code on that path, the expiry filter is_expired_entry, is decided under C05/C06',
 }
 
-_UNS = 'Proof level holds for the single-threaded cache (src/unsync/cache.rs, src/unsync/deques.rs). The concurrent cache mutates shared state through &self (atomics, Mutex, DashMap), which neither back end can frame: of it only leaf predicates, counter arithmetic, the lookup composition, (quiescent case) Inner::admit and the bookkeeping steps handle_admit / handle_remove / handle_remove_with_deques with the tagged-pointer layer common/concurrent/deques.rs (unit sync_maint, shared entry state read as \'what this call reads\') are under contract; its maintenance is exercised by the bounded runtime stand-in rt_sync in sequential histories only, schedules are not covered. '
+_UNS = 'Proof level holds for the single-threaded cache (src/unsync/cache.rs, src/unsync/deques.rs). The concurrent cache mutates shared state through &self (atomics, Mutex, DashMap), which neither back end can frame: of it only leaf predicates, counter arithmetic, the lookup composition, (quiescent case) Inner::admit and Inner::handle_upsert, the bookkeeping steps handle_admit / handle_remove / handle_remove_with_deques with the tagged-pointer layer common/concurrent/deques.rs (unit sync_maint, shared entry state read as \'what this call reads\') are under contract; its maintenance is exercised by the bounded runtime stand-in rt_sync in sequential histories only, schedules are not covered. '
 _ENV = 'Assumed contracts (trusted): std HashMap as a map view; common/deque.rs (raw pointers) as a sequence view, checked separately by complete single-operation Kani window harnesses and bounded sequences; unsync/deques.rs and the ValueEntry accessors are PROVED against that view in unit udeques, the cache unit uses their contracts; Instant/Duration arithmetic, std::cmp::min/max, a pure weigher, key identity through Hash/Eq/Borrow coherence, fewer than 2^32 entries, one named clock reading per operation.'
 
 CLAIMS = {
